@@ -163,6 +163,11 @@ Definition part_ok (c : cfg) (tr : list event) (count : Z) (tails : list Z) (par
         (if g <? count then TL c <=? off else if g =? count then off <=? TL c else false)
     end.
 
+(* (c) per publisher and (e): what the theorems C02_answers / C02_positions_increasing say about the recorded results *)
+Definition holds_results (offers : list (list (list Z))) (results : list (status * list (outcome Z))) : bool :=
+  forallb (fun r => status_eqb (fst r) Done && forallb res_ok (snd r)) results &&
+  forallb (fun x => increasing (map fst (accepted (fst x) (snd (snd x))))) (combine offers results).
+
 Definition holds_C02 (c : cfg) (offers : list (list (list Z)))
   (obs : list (Z * accessor * Z * Z * Z * Z * Z * Z) * list (status * list (outcome Z)) * (Z * list Z * list words * Z * Z)
          * list (Z * Z * Z * Z * list Z)) : bool :=
@@ -170,11 +175,11 @@ Definition holds_C02 (c : cfg) (offers : list (list (list Z)))
   let tr := map tuple_ev trt in
   let accs := map (fun x => accepted (fst x) (snd (snd x))) (combine offers results) in
   let acc_all := sort_by_pos (concat accs) in
-  (* (e) *)
-  forallb (fun r => status_eqb (fst r) Done && forallb res_ok (snd r)) results &&
+  (* (e), (c) per publisher *)
+  holds_results offers results &&
   (length results =? length offers)%nat && (length tails =? 3)%nat && (length parts =? 3)%nat &&
-  (* (c) *)
-  forallb (fun a => increasing (map fst a)) accs && increasing (map fst acc_all) &&
+  (* (c) all positions distinct *)
+  increasing (map fst acc_all) &&
   (* (d) count and tails *)
   (c_n0 c <=? count) &&
   (gen_of c (nth (Z.to_nat (count mod 3)) tails 0) =? count) &&
